@@ -52,3 +52,11 @@ VR_CHECK_U = "    checkformat_delegating_metadata(untrusted_new_root_metadata)\n
 REVERT_D2 = [(A, "        checkformat_delegating_metadata({'signatures': {}, 'signed': untrusted_delegated_metadata['signed']})\n", "        checkformat_delegating_metadata(untrusted_delegated_metadata)\n")]
 REVERT_D5 = [("__main__", "sys.exit(cli.cli())", "cli.cli()")]
 REVERT_D6 = [("cli", "        print('ABORTED.  Expected key file to contain only a hex string representation of an ed25519 key.  It does not.')\n        return 1\n", "        print('ABORTED.  Expected key file to contain only a hex string representation of an ed25519 key.  It does not.')\n        return\n")]
+
+# --- persistence
+RS = "root_signing"
+WM_SER = "    metadata = canonserialize(metadata)\n"
+WM_OPEN = "    with open(filename, 'wb') as fobj:\n        fobj.write(metadata)\n"
+LM_BODY = "    with open(fname, 'rb') as fobj:\n        metadata = load(fobj)\n    return metadata\n"
+SA_RESET = "    repodata['signatures'] = {}\n"
+SA_WRITE = "    write_metadata_to_file(repodata, fname)"
